@@ -64,7 +64,16 @@ pub fn iup_delta_optimize(
 
     let mut result = Vec::with_capacity(num_coords);
     let mut start = 0;
-    let mut deltas = deltas;
+    // The deltas we return are rounded, and those are the values from which
+    // the omitted deltas will be inferred. Round before deciding what can be
+    // omitted (as fonttools does) so that the decisions hold for the result.
+    let mut deltas: Vec<Vec2> = deltas
+        .into_iter()
+        .map(|delta| {
+            let (x, y): (i16, i16) = delta.to_point().ot_round();
+            Vec2::new(x.into(), y.into())
+        })
+        .collect();
     let mut coords = coords;
     for end in contour_ends {
         let contour = iup_contour_optimize(
